@@ -174,6 +174,7 @@ loop:
 
 type Case struct {
 	Top     *fn    `json:"top"`
+	Tmpl    bool   `json:"tmpl,omitempty"` // template case: Src / WantOut / WantRes are given, not derived from Top
 	Iter    bool   `json:"iter,omitempty"` // the top body is an iterator literal advanced twice by next (first outcome held by try)
 	Src     string `json:"src,omitempty"`
 	WantOut string `json:"want_out,omitempty"`
@@ -207,6 +208,9 @@ func judge(c *Case) (sig, detail string) {
 }
 
 func judgeRaw(c *Case) (sig, detail string) {
+	if c.Tmpl {
+		return judgeOutcome(c)
+	}
 	c.Src = program(c.Top, c.Iter)
 	want := []string{"pre"}
 	modelRun = 1
@@ -225,6 +229,11 @@ func judgeRaw(c *Case) (sig, detail string) {
 		c.WantRes = "ERR " + e
 	}
 	c.WantOut = strings.Join(want, " ")
+	return judgeOutcome(c)
+}
+
+// judgeOutcome runs c.Src and compares output and result with c.WantOut / c.WantRes.
+func judgeOutcome(c *Case) (sig, detail string) {
 	o := interp.Shared().Run(c.Src, interp.Opts{})
 	gotOut := strings.Join(strings.Fields(strings.ReplaceAll(o.Stdout, "\"", "")), " ")
 	gotRes := ""
@@ -441,6 +450,117 @@ func TestRandomBodies(t *testing.T) {
 			top.Stmts = append(top.Stmts[:at], append([]stmt{{Kind: "deferRaiseOnce", ID: counter}}, top.Stmts[at:]...)...)
 		}
 		run(rt, top, true)
+	})
+}
+
+// ---- templates: recursion, and iterators consumed by chains ----
+
+// recTrace: markers printed by f(n) of the recursion template (innermost frame finishes first).
+func recTrace(n, mod int, raiseAtBottom bool, out *[]string) (ok bool) {
+	if n == 0 {
+		if mod > 0 && 0%mod == 0 {
+			*out = append(*out, "a0")
+		}
+		*out = append(*out, "b0")
+		return !raiseAtBottom
+	}
+	ok = recTrace(n-1, mod, raiseAtBottom, out)
+	if n%mod == 0 {
+		*out = append(*out, fmt.Sprintf("a%d", n))
+	}
+	*out = append(*out, fmt.Sprintf("b%d", n))
+	if ok {
+		*out = append(*out, fmt.Sprintf("c%d", n)) // reached only when the inner call returned
+	}
+	return ok
+}
+
+func TestDeferTemplates(t *testing.T) {
+	vt.Check(t, vt.N(1200, 80000), func(rt *rapid.T) {
+		var lines, want []string
+		res := "nil"
+		if rapid.Bool().Draw(rt, "recursion") {
+			// one function object live in several frames, each reaching a different set of defers; called several times
+			d, mod, boom := rapid.IntRange(1, 5).Draw(rt, "depth"), rapid.IntRange(2, 3).Draw(rt, "mod"), rapid.IntRange(0, 3).Draw(rt, "raise") == 0
+			bottom := "return 0 if n == 0"
+			if boom {
+				bottom = "raise ValueErr.new(\"bottom\") if n == 0"
+			}
+			lines = append(lines, fmt.Sprintf("f := {|n| defer \"a#{n}\".p if n %% %d == 0; defer \"b#{n}\".p; %s; r := f(n - 1); defer \"c#{n}\".p; r + 1}", mod, bottom))
+			for k := rapid.IntRange(2, 3).Draw(rt, "calls"); k > 0; k-- {
+				dd := d
+				if rapid.Bool().Draw(rt, "other depth") {
+					dd = rapid.IntRange(0, 5).Draw(rt, "depth2")
+				}
+				lines = append(lines, fmt.Sprintf("\"call\".p; 1.try.{|x| f(%d)}.A[0].p", dd))
+				want = append(want, "call")
+				if recTrace(dd, mod, boom, &want) {
+					want = append(want, fmt.Sprint(dd))
+				} else {
+					want = append(want, "nil")
+				}
+			}
+		} else {
+			// an iterator with defers consumed by next, A, list / reduce chains and through a copy made after one next
+			lim, mod := rapid.IntRange(1, 4).Draw(rt, "lim"), rapid.IntRange(2, 3).Draw(rt, "mod")
+			lines = append(lines, fmt.Sprintf("mk := {|| <{|i| defer \"d#{i}\".p; defer \"e#{i}\".p if i %% %d == 0; yield i * 10 if i < %d; recur(i + 1)}>}", mod, lim))
+			trace := func(from int) {
+				for i := from; i <= lim; i++ {
+					want = append(want, fmt.Sprintf("d%d", i))
+					if i%mod == 0 {
+						want = append(want, fmt.Sprintf("e%d", i))
+					}
+				}
+			}
+			list := func(from int) string {
+				xs := []string{}
+				for i := from; i < lim; i++ {
+					xs = append(xs, fmt.Sprint(i*10))
+				}
+				return "[" + strings.Join(xs, ", ") + "]"
+			}
+			routes := []string{"A", "C", "R", "M", "S"}
+			for n := rapid.IntRange(2, 4).Draw(rt, "routes"); n > 0; n-- {
+				switch r := rapid.SampledFrom(routes).Draw(rt, "route"); r {
+				case "A":
+					lines = append(lines, "\"A\".p; mk().new(0).A.p")
+					want = append(want, "A")
+					trace(0)
+					want = append(want, list(0))
+				case "C":
+					lines = append(lines, "\"C\".p; (mk().new(0)@{|x| x}).p")
+					want = append(want, "C")
+					trace(0)
+					want = append(want, list(0))
+				case "R":
+					lines = append(lines, "\"R\".p; (mk().new(0)$([]){|acc, x| [*acc, x]}).p")
+					want = append(want, "R")
+					trace(0)
+					want = append(want, list(0))
+				case "M":
+					// one explicit next, then a chain over the iterator (which works on a copy positioned after it)
+					lines = append(lines, "\"M\".p; it := mk().new(0); it.next; it.A.p; (it=@{\\}).p")
+					want = append(want, "M", "d0", "e0")
+					trace(1)
+					want = append(want, list(1))
+					trace(1)
+					want = append(want, list(1))
+				case "S":
+					lines = append(lines, "\"S\".p; it := mk().new(0)._iter._iter; it.A.p")
+					want = append(want, "S")
+					trace(0)
+					want = append(want, list(0))
+				}
+			}
+		}
+		lines = append(lines, "nil")
+		c := Case{Tmpl: true, Src: strings.Join(lines, "\n"), WantOut: strings.Join(want, " "), WantRes: res}
+		vt.Eval()
+		vt.Class("defer template (recursion / iterator consumed by chains)")
+		vt.NonTrivial(c.Src, func() any { return c.Src })
+		if sig, detail := judge(&c); sig != "" {
+			vt.Fail(rt, "template:"+sig, detail, c)
+		}
 	})
 }
 
